@@ -117,7 +117,9 @@ class Check(BaseCheck):
         rng = gen.rng_for(self.seed, "c07k")
         for k in range(12 if self.quick else 1000):
             nv, ne = int(rng.integers(3, 9)), int(rng.integers(2, 7))
-            evecs = rng.normal(size=(nv, ne)); evals = np.abs(rng.normal(size=ne)); evals.sort()
+            evecs = rng.normal(size=(nv, ne)); evals = np.abs(rng.normal(size=ne))
+            if k % 4 != 1:
+                evals.sort()          # (k % 4 == 1: eigenpairs listed in arbitrary order - the formulas pair value j with column j)
             n = int(rng.integers(1, ne + 1)); q = int(rng.integers(0, nv))
             tmode = ["scalar", "vec", "row", "one"][k % 4]
             ts = dict(scalar=float(rng.uniform(0.1, 2)), vec=rng.uniform(0.1, 2, size=int(rng.integers(2, 5))),
@@ -149,7 +151,7 @@ class Check(BaseCheck):
         for k in range(20):
             nv, ne = int(rng.integers(3, 9)), int(rng.integers(2, 7))
             es = 1.0 if k % 3 else 10.0 ** rng.uniform(3, 6)
-            yield dict(name="kernel", evecs=rng.normal(size=(nv, ne)), evals=es * np.sort(np.abs(rng.normal(size=ne))), n=int(rng.integers(1, ne + 1)),
+            yield dict(name="kernel", evecs=rng.normal(size=(nv, ne)), evals=es * (np.sort(np.abs(rng.normal(size=ne))) if k % 4 != 1 else np.abs(rng.normal(size=ne))), n=int(rng.integers(1, ne + 1)),
                        q=int(rng.integers(0, nv)), t=rng.uniform(0.1, 2, size=int(rng.integers(1, 5))) / es, xs=rng.choice(nv, size=2), tmode="vec")
 
     def oracle(self, case):
